@@ -201,9 +201,10 @@ class AbstractBlob:
         blob_bytes, blob_hash = encrypt_blob_bytes(key, iv, unencrypted)
         length = len(blob_bytes)
         blob = cls(loop, blob_hash, length, blob_completed_callback, blob_dir, added_on, is_mine)
-        writer = blob.get_blob_writer()
-        writer.write(blob_bytes)
-        await blob.verified.wait()
+        if not blob.get_is_verified():  # the same key, iv and plaintext give a blob that is already there
+            writer = blob.get_blob_writer()
+            writer.write(blob_bytes)
+            await blob.verified.wait()
         return BlobInfo(blob_num, length, binascii.hexlify(iv).decode(), added_on, blob_hash, is_mine)
 
     def save_verified_blob(self, verified_bytes: bytes):
